@@ -370,3 +370,24 @@ KEEP += [
     ('K95', 'GEN', 'rename_locals', ALL_MAIN, ['C%02d' % i for i in range(1, 21)],
      'every parameter and local variable of every non-test function in fourteen source files renamed (generated by tools/rename_locals.py)'),
 ]
+
+_WRAP_FN = "\n/// Brings an angle into [-PI, PI] by whole turns\nfn wrap_pi(mut angle: f64) -> f64 {\n    while angle > PI {\n        angle -= 2.0 * PI;\n    }\n    while angle < -PI {\n        angle += 2.0 * PI;\n    }\n    angle\n}\n\nfn calculate_distance("
+KEEP += [
+    ('K96', None, [(K, "                        let mut angle = s_n - s;\n                        while angle > PI {\n                            angle -= 2.0 * PI;\n                        }\n                        while angle < -PI {\n                            angle += 2.0 * PI;\n                        }\n                        let j_d", "                        let angle = wrap_pi(s_n - s);\n                        let j_d", False),
+                   (K, "                let mut angle = sols[si][ji];\n                if angle.is_finite() {\n                    while angle > PI {\n                        angle -= 2.0 * PI;\n                    }\n                    while angle < -PI {\n                        angle += 2.0 * PI;\n                    }\n                    sols[si][ji] = angle;\n                } else {", "                let angle = sols[si][ji];\n                if angle.is_finite() {\n                    sols[si][ji] = wrap_pi(angle);\n                } else {", True),
+                   (K, "\nfn calculate_distance(", _WRAP_FN, False)],
+     None, ['C01', 'C02', 'C05', 'C06', 'C04'], 'the three copies of the reduction loops extracted into one helper'),
+]
+
+KEEP += [
+    ('K97', K, "            self.filter_constraints_compliant(self.inverse_intern(&pose))\n        }\n    }", "            let all = self.inverse_intern(&pose);\n            match &self.constraints {\n                Some(constraints) => constraints.filter(&all),\n                None => all,\n            }\n        }\n    }", ['C08', 'C01', 'C02'], 'limits filter inlined into inverse'),
+    ('K98', None, [(K, "        let q1 = joints[0] * p.sign_corrections[0] as f64 - p.offsets[0];\n        let q2 = joints[1] * p.sign_corrections[1] as f64 - p.offsets[1];\n        let q3 = joints[2] * p.sign_corrections[2] as f64 - p.offsets[2];\n        let q4 = joints[3] * p.sign_corrections[3] as f64 - p.offsets[3];\n        let q5 = joints[4] * p.sign_corrections[4] as f64 - p.offsets[4];\n        let q6 = joints[5] * p.sign_corrections[5] as f64 - p.offsets[5];\n\n        let psi3",
+                    "        let q1 = self.internal_angle(joints, 0);\n        let q2 = self.internal_angle(joints, 1);\n        let q3 = self.internal_angle(joints, 2);\n        let q4 = self.internal_angle(joints, 3);\n        let q5 = self.internal_angle(joints, 4);\n        let q6 = self.internal_angle(joints, 5);\n\n        let psi3", False),
+                   (K, "    fn compare_xyz_only(", "    /// Joint value in the convention of the OPW paper\n    fn internal_angle(&self, joints: &Joints, i: usize) -> f64 {\n        joints[i] * self.parameters.sign_corrections[i] as f64 - self.parameters.offsets[i]\n    }\n\n    fn compare_xyz_only(", False)],
+     None, ['C03', 'C01'], 'joint convention of forward() extracted into a method'),
+    ('K99', None, [(C, "        let mut difference = (angle1 - angle2).abs();\n        difference = difference % TWO_PI;\n        if difference > PI {\n            difference = TWO_PI - difference;\n        }\n        difference <= tolerance\n    }", "        Self::circular_distance(angle1, angle2) <= tolerance\n    }\n\n    /// Distance of two angles on the circle, in [0, PI]\n    fn circular_distance(angle1: f64, angle2: f64) -> f64 {\n        let mut difference = (angle1 - angle2).abs();\n        difference = difference % TWO_PI;\n        if difference > PI {\n            difference = TWO_PI - difference;\n        }\n        difference\n    }", False)],
+     None, ['C07', 'C08', 'C18'], 'circular distance extracted from the membership test'),
+    ('K100', None, [(CO, "                    if self.check_required(J_TOOL, (ENV_START_IDX + env_idx) as usize, &skip, safety_distances) {\n                        tasks.push(CollisionTask {\n                            i: J_TOOL as u16,\n                            j: (ENV_START_IDX + env_idx) as u16,", "                    if self.check_required(J_TOOL, Self::env_id(env_idx), &skip, safety_distances) {\n                        tasks.push(CollisionTask {\n                            i: J_TOOL as u16,\n                            j: Self::env_id(env_idx) as u16,", False),
+                    (CO, "    fn check_required(\n        &self,", "    /// Reporting index of the environment object number k\n    fn env_id(k: usize) -> usize {\n        ENV_START_IDX + k\n    }\n\n    fn check_required(\n        &self,", False)],
+     None, ['C10', 'C14'], 'environment index computed by a small helper'),
+]
